@@ -75,6 +75,8 @@ def handleBuild (op : String) (args : List String) : Option String :=
     | .ok x, .ok y => (match x.allowsAny y with | .ok b => "ok\t" ++ boolStr b | .error e => bErr e)
     | .error e, _ => bErr e
     | _, .error e => bErr e
+  | "bcsv", [text] =>
+    some <| "ok\t" ++ joinWith "\t" ((csvParse text.toList).map fun row => encode (packF (row.map String.ofList)))
   | "bint", [s] =>
     some <| match pyInt s with | some t => "ok\t" ++ toString t | none => "err\tvalue"
   | "btime", [kind, isSet, v] =>
